@@ -365,6 +365,82 @@ def judge_c08(ctx, idx, op, impl, mi, ms, reason):
     return f
 
 
+def cli_model_input(line, impl_answer):
+    """the model replays the trace the implementation produced (second phase of the client checks)"""
+    if not line.startswith("cli "):
+        return line
+    t = line.split(" ")
+    m = re.match(r"trace=(\S+) res=(\S+) stopped=(\d) late=(\S+)$", impl_answer)
+    if not m:
+        return "ctrace - -"
+    return "ctrace %s %s" % (m.group(1), t[4])
+
+
+def judge_cli(ctx, idx, op, impl, mi, ms, reason):
+    if op[0] != "cli":
+        return same(ctx, idx, op, impl, mi, "dictionary set-up")
+    f = []
+    lab = label_kv(ctx.case_label)
+    m = re.match(r"trace=(\S+) res=(\S+) stopped=(\d) late=(\S+)$", impl)
+    if not m:
+        f.append(Finding("property", idx, "the client scenario did not complete (%s)" % impl[:60], expected="trace=.. res=..", observed=impl[:200], name="C12_stopped"))
+        return f
+    trace = [] if m.group(1) == "-" else m.group(1).split(",")
+    res = [] if m.group(2) == "-" else m.group(2).split(",")
+    stopped = m.group(3) == "1"
+    late = m.group(4)
+    ctx.count("scenarios")
+    ctx.count("trace_len_%d" % min(len(trace) // 10 * 10, 100))
+    for e in trace:
+        ctx.count("ev_" + e.split(":")[0])
+    # --- correspondence: the observed trace must be a run of the transition system, with the statuses it predicts
+    if mi.startswith("reject"):
+        f.append(Finding("correspondence", idx, "the observed event trace is not a run of the client model: " + mi, expected="accept", observed=mi, name="Client.step <-> send_message / handle / process_decoded_msg (trace conformance)"))
+    else:
+        pred = mi.split(" ")[1]
+        obs = ",".join(res) if res else "-"
+        # futures that were never handed out (send failed after registering) are not compared
+        pl, ol = pred.split(","), obs.split(",")
+        if len(pl) != len(ol) or any(a != b and b != "none" for a, b in zip(pl, ol)):
+            f.append(Finding("correspondence", idx, "future values differ from what the model predicts for the observed trace", expected=pred, observed=obs, name="Client.step <-> send_message / handle / process_decoded_msg (outcome)"))
+        r = kv(ms)
+        ctx.count("polite_%s" % r.get("polite"))
+    # --- the properties, evaluated on the implementation's own observations
+    regs = [e.split(":")[1] for e in trace if e.startswith("reg:")]
+    answers = op[4].split(",") if op[4] != "-" else []
+    seen = set()
+    for w, rv in enumerate(res):
+        if rv.startswith("got:"):
+            _, h, uid = rv.split(":")
+            ctx.count("future_got")
+            if w < len(regs) and regs[w] != h:
+                f.append(Finding("property", idx, "future of the request with hop-by-hop id %s completed with an answer carrying id %s" % (regs[w], h), expected="got:%s:*" % regs[w], observed=rv, name="C11_safety"))
+            if "%s:%s" % (h, uid) not in answers:
+                f.append(Finding("property", idx, "a future received a message the peer did not send (%s)" % rv, expected="one of " + ",".join(answers), observed=rv, name="C11_safety"))
+            if uid in seen:
+                f.append(Finding("property", idx, "one answer was delivered to more than one future (%s)" % rv, expected="at most once", observed=",".join(res), name="C11_once"))
+            seen.add(uid)
+        elif rv == "pending":
+            ctx.count("future_pending")
+            if stopped:
+                f.append(Finding("property", idx, "a response future is still pending although the reader has stopped", expected="err or answer", observed=",".join(res), name="C12_stopped"))
+            elif lab.get("silent") != "1":
+                f.append(Finding("property", idx, "a response future is pending and the reader never stopped although the peer closed / sent something undecodable", expected="err or answer", observed=",".join(res), name="C12_stopped"))
+        elif rv == "err":
+            ctx.count("future_err")
+    if lab.get("expect") == "all":
+        # polite scenario, every request answered: every future must hold its own answer
+        if any(not rv.startswith("got:") for rv in res) or len(res) != len(op[1].split(",")):
+            f.append(Finding("property", idx, "a request that the peer answered did not get its answer", expected="every future got its answer", observed=",".join(res), name="C11_delivery"))
+    if not stopped and lab.get("silent") != "1":
+        f.append(Finding("property", idx, "the reader task did not stop although the connection ended", expected="stopped", observed="running", name="C12_stopped"))
+    if late != "none":
+        ctx.count("late_" + late.split(":")[0] + ("_" + late.split(":")[1] if ":" in late else ""))
+        if stopped and late not in ("err", "fut:err"):
+            f.append(Finding("property", idx, "a send attempted after the reader stopped neither failed nor yielded a failing future (%s)" % late, expected="err or fut:err", observed=late, name="C12_send_after_stop"))
+    return f
+
+
 def judge_c14(ctx, idx, op, impl, mi, ms, reason):
     if op[0] == "dbyname":
         # any live definition carrying the name is a correct answer (membership, not identity)
@@ -523,6 +599,8 @@ PROPS = {
     "C07": dict(family="c07", judge=judge_c07, probes=("sdec",), title="Hostile frame lengths on a stream are refused cheaply and safely"),
     "C08": dict(family="c08", judge=judge_c08, probes=("serve",), title="Server answers each request exactly once, in order, unmodified"),
     "C09": dict(family="c09", judge=judge_c08, probes=("serve",), title="Server survives connection loss at any byte offset"),
+    "C11": dict(family="c11", judge=judge_cli, probes=("cli",), model_input=cli_model_input, title="Client delivers each answer to the request it belongs to"),
+    "C12": dict(family="c12", judge=judge_cli, probes=("cli",), model_input=cli_model_input, title="Every response future eventually completes"),
     "C14": dict(family="c14", judge=judge_c14, probes=("dget", "dbyname", "dapp", "dcmd"), title="Dictionary lookups reflect exactly what was loaded, latest wins"),
     "C15": dict(family="c15", extra=shipped_defs, judge=judge_c15, probes=("dec", "dget", "dbyname", "rt"), title="AVPs are typed by their exact dictionary entry or rejected"),
     "C16": dict(family="c16", extra=shipped_defs, judge=judge_c16, probes=("add_by_name", "avp_name", "enc", "dump", "len"), title="Building an AVP by name follows the dictionary; failure changes nothing"),
